@@ -605,12 +605,12 @@ class Stairs:
             {
                 **{
                     "unique": stairs.percentile.clip(0, 100).number_of_steps - 1,
-                    "mean": stairs.mean,
-                    "std": stairs.std,
-                    "min": stairs.min,
+                    "mean": stairs.mean(),
+                    "std": stairs.std(),
+                    "min": stairs.min(),
                 },
                 **{f"{perc}%": stairs.percentile(perc) for perc in percentiles},
-                **{"max": stairs.max},
+                **{"max": stairs.max()},
             }
         )
 
